@@ -1,7 +1,9 @@
+import TxdbusModel.Wire.Infer
 import TxdbusModel.Wire.InferTy
+import TxdbusModel.Proofs.Sig.Split
 /-
-The code model `sigFromPy` computes the rendering of the type `inferTy` on every value without
-custom `dbusSignature` objects.  Core Lean only.
+The code model `sigFromPy` computes the rendering of the type `inferTy`; the inferred type is always a
+well-formed DBus type.  Core Lean only.
 -/
 namespace Txdbus
 
@@ -20,202 +22,30 @@ theorem intSig_eq (n : Int) : intSig n = (Ty.basic (intBasic n)).render := by
   · rfl
   · split <;> rfl
 
-theorem intCls_sig (cls : IntCls) :
-    cls.dbusSignature = cls.basic?.map Basic.code := by
-  cases cls <;> rfl
+theorem allSameType_eq (c : PyClass) (xs : List PyVal) : allSameType c xs = sameClass c xs := rfl
+theorem allValuesSameType_eq (c : PyClass) (kvs : List (PyVal × PyVal)) :
+    allValuesSameType c kvs = sameValueClass c kvs := rfl
 
-theorem strCls_sig (cls : StrCls) :
-    (match cls.dbusSignature with | some c => [c] | none => ['s']) = [cls.basic.code] := by
-  cases cls <;> rfl
+theorem isBasicSig_basic (c : Basic) : isBasicSig (Ty.basic c).render = true := by
+  cases c <;> decide
 
-mutual
-theorem sigFromPy_eq_inferTy : ∀ v : PyVal, v.noCustomSig = true → sigFromPy v = renderRes (inferTy v)
-  | .none, _ => by simp [sigFromPy, inferTy, renderRes]
-  | .bool _, _ => by simp [sigFromPy, inferTy, renderRes, Ty.render, Basic.code]
-  | .int cls n, _ => by
-      cases cls <;> simp [sigFromPy, inferTy, renderRes, IntCls.dbusSignature, IntCls.basic?, intSig_eq,
-        Ty.render, Basic.code]
-  | .float _, _ => by simp [sigFromPy, inferTy, renderRes, Ty.render, Basic.code]
-  | .str cls _, _ => by
-      cases cls <;> simp [sigFromPy, inferTy, renderRes, StrCls.dbusSignature, StrCls.basic, Ty.render, Basic.code]
-  | .bytearray _, _ => by simp [sigFromPy, inferTy, renderRes, Ty.render, Basic.code]
-  | .list [], _ => by simp [sigFromPy, inferTy, renderRes, Ty.render]
-  | .list (x :: xs), h => by
-      have hx : x.noCustomSig = true := by
-        simp [PyVal.noCustomSig, noCustomSigs] at h; exact h.1
-      have ih := sigFromPy_eq_inferTy x hx
-      simp only [sigFromPy, inferTy]
-      split
-      · rw [ih]; cases inferTy x <;> simp [renderRes, Ty.render]
-      · simp [renderRes, Ty.render]
-  | .tuple xs, h => by
-      have ih := sigConcat_eq_inferTys xs (by simpa [PyVal.noCustomSig] using h)
-      simp only [sigFromPy, inferTy]
-      rw [ih]; cases inferTys xs <;> simp [renderRes, renderAllRes, Ty.render]
-  | .dict [], _ => by simp [sigFromPy, inferTy, renderRes, Ty.render, Basic.code]
-  | .dict ((k, v) :: rest), h => by
-      have h' : k.noCustomSig = true ∧ v.noCustomSig = true ∧ noCustomSigPairs rest = true := by
-        simp [PyVal.noCustomSig, noCustomSigPairs] at h; exact ⟨h.1.1, h.1.2, h.2⟩
-      have ihk := sigLastKey_eq_inferLastKey ((k, v) :: rest)
-        (by simp [noCustomSigPairs, h'.1, h'.2.1, h'.2.2]) (by simp)
-      have ihv := sigFromPy_eq_inferTy v h'.2.1
-      simp only [sigFromPy, inferTy]
-      rw [ihk]
-      cases inferLastKey ((k, v) :: rest) with
-      | none => simp [renderRes]
-      | some kt =>
-        simp only [renderRes]
-        split
-        · rw [ihv]; cases inferTy v <;> simp [renderRes, Ty.render]
-        · simp [Ty.render]
-  | .obj _ (some _) _, h => by simp [PyVal.noCustomSig] at h
-  | .obj _ Option.none _, _ => by simp [sigFromPy, inferTy, renderRes]
-  | .other _, _ => by simp [sigFromPy, inferTy, renderRes]
-theorem sigConcat_eq_inferTys : ∀ xs : List PyVal, noCustomSigs xs = true →
-    sigConcat xs = renderAllRes (inferTys xs)
-  | [], _ => by simp [sigConcat, inferTys, renderAllRes, renderAll]
-  | x :: xs, h => by
-      have h' : x.noCustomSig = true ∧ noCustomSigs xs = true := by
-        simpa [noCustomSigs] using h
-      have ih1 := sigFromPy_eq_inferTy x h'.1
-      have ih2 := sigConcat_eq_inferTys xs h'.2
-      simp only [sigConcat, inferTys]
-      rw [ih1, ih2]
-      cases inferTy x <;> cases inferTys xs <;> simp [renderRes, renderAllRes, renderAll]
-theorem sigLastKey_eq_inferLastKey : ∀ kvs : List (PyVal × PyVal), noCustomSigPairs kvs = true →
-    kvs ≠ [] → sigLastKey kvs = renderRes (inferLastKey kvs)
-  | [], _, hne => absurd rfl hne
-  | [(k, _)], h, _ => by
-      have hk : k.noCustomSig = true := by
-        simp [noCustomSigPairs] at h; exact h.1
-      simpa [sigLastKey, inferLastKey] using sigFromPy_eq_inferTy k hk
-  | _ :: p :: rest, h, _ => by
-      have h' : noCustomSigPairs (p :: rest) = true := by
-        simp [noCustomSigPairs] at h ⊢; exact ⟨h.2.1, h.2.2⟩
-      simpa [sigLastKey, inferLastKey] using sigLastKey_eq_inferLastKey (p :: rest) h' (by simp)
-end
-
-/-! ### inference is total on the supported classes -/
-
-mutual
-theorem inferTy_total : ∀ v : PyVal, v.builtinOnly = true → ∃ t, inferTy v = some t
-  | .none, h => by simp [PyVal.builtinOnly] at h
-  | .bool _, _ => by simp [inferTy]
-  | .int cls n, _ => by cases cls <;> simp [inferTy, IntCls.basic?]
-  | .float _, _ => by simp [inferTy]
-  | .str _ _, _ => by simp [inferTy]
-  | .bytearray _, _ => by simp [inferTy]
-  | .list [], _ => by simp [inferTy]
-  | .list (x :: xs), h => by
-      have hx : x.builtinOnly = true := by
-        simp [PyVal.builtinOnly, builtinOnlys] at h; exact h.1
-      obtain ⟨t, ht⟩ := inferTy_total x hx
-      simp only [inferTy]
-      split <;> simp [ht]
-  | .tuple xs, h => by
-      obtain ⟨ts, hts⟩ := inferTys_total xs (by simpa [PyVal.builtinOnly] using h)
-      simp [inferTy, hts]
-  | .dict [], _ => by simp [inferTy]
-  | .dict ((k, v) :: rest), h => by
-      have h' : k.builtinOnly = true ∧ v.builtinOnly = true ∧ builtinOnlyPairs rest = true := by
-        simp [PyVal.builtinOnly, builtinOnlyPairs] at h; exact ⟨h.1.1, h.1.2, h.2⟩
-      obtain ⟨kt, hk⟩ := inferLastKey_total ((k, v) :: rest)
-        (by simp [builtinOnlyPairs, h'.1, h'.2.1, h'.2.2]) (by simp)
-      obtain ⟨vt, hv⟩ := inferTy_total v h'.2.1
-      simp only [inferTy, hk]
-      split <;> simp [hv]
-  | .obj _ _ _, h => by simp [PyVal.builtinOnly] at h
-  | .other _, h => by simp [PyVal.builtinOnly] at h
-theorem inferTys_total : ∀ xs : List PyVal, builtinOnlys xs = true → ∃ ts, inferTys xs = some ts
-  | [], _ => ⟨[], by simp [inferTys]⟩
-  | x :: xs, h => by
-      have h' : x.builtinOnly = true ∧ builtinOnlys xs = true := by simpa [builtinOnlys] using h
-      obtain ⟨t, ht⟩ := inferTy_total x h'.1
-      obtain ⟨ts, hts⟩ := inferTys_total xs h'.2
-      exact ⟨t :: ts, by simp [inferTys, ht, hts]⟩
-theorem inferLastKey_total : ∀ kvs : List (PyVal × PyVal), builtinOnlyPairs kvs = true → kvs ≠ [] →
-    ∃ t, inferLastKey kvs = some t
-  | [], _, hne => absurd rfl hne
-  | [(k, _)], h, _ => by
-      have hk : k.builtinOnly = true := by simp [builtinOnlyPairs] at h; exact h.1
-      simpa [inferLastKey] using inferTy_total k hk
-  | _ :: p :: rest, h, _ => by
-      have h' : builtinOnlyPairs (p :: rest) = true := by
-        simp [builtinOnlyPairs] at h ⊢; exact ⟨h.2.1, h.2.2⟩
-      simpa [inferLastKey] using inferLastKey_total (p :: rest) h' (by simp)
-end
-
-/-! ### the inferred type is well formed when the value has an encodable shape -/
-
-theorem wf_array_of_notEntry (t : Ty) (h : t.notEntry = true) : (Ty.array t).wf = t.wf := by
-  cases t <;> simp_all [Ty.wf, Ty.notEntry]
-
-theorem scalarKey_basic (k : PyVal) (h : k.isScalarKey = true) : ∃ c, inferTy k = some (.basic c) := by
-  cases k <;> simp [PyVal.isScalarKey] at h
-  · simp [inferTy]
-  · rename_i cls n; cases cls <;> simp [inferTy, IntCls.basic?]
-  · simp [inferTy]
-  · simp [inferTy]
-
-mutual
-theorem inferTy_wf_aux : ∀ v : PyVal, v.encodableShape = true →
-    ∃ t, inferTy v = some t ∧ t.wf = true ∧ t.notEntry = true
-  | .none, h => by simp [PyVal.encodableShape] at h
-  | .bool _, _ => by refine ⟨_, rfl, ?_, ?_⟩ <;> simp [Ty.wf, Ty.notEntry]
-  | .int cls n, _ => by cases cls <;> simp [inferTy, IntCls.basic?, Ty.wf, Ty.notEntry]
-  | .float _, _ => by refine ⟨_, rfl, ?_, ?_⟩ <;> simp [Ty.wf, Ty.notEntry]
-  | .str _ _, _ => by refine ⟨_, rfl, ?_, ?_⟩ <;> simp [Ty.wf, Ty.notEntry]
-  | .bytearray _, _ => by refine ⟨_, rfl, ?_, ?_⟩ <;> simp [Ty.wf, Ty.notEntry]
-  | .list [], _ => by refine ⟨_, rfl, ?_, ?_⟩ <;> simp [Ty.wf, Ty.notEntry]
-  | .list (x :: xs), h => by
-      have hx : x.encodableShape = true := by
-        simp [PyVal.encodableShape, encodableShapes] at h; exact h.1
-      obtain ⟨t, ht, hwf, hne⟩ := inferTy_wf_aux x hx
-      simp only [inferTy]
-      split
-      · exact ⟨.array t, by simp [ht], by rw [wf_array_of_notEntry t hne]; exact hwf, by simp [Ty.notEntry]⟩
-      · exact ⟨_, rfl, by simp [Ty.wf], by simp [Ty.notEntry]⟩
-  | .tuple xs, h => by
-      have h' : xs ≠ [] ∧ encodableShapes xs = true := by
-        simp [PyVal.encodableShape] at h; exact h
-      obtain ⟨ts, hts, hwf, hne⟩ := inferTys_wf_aux xs h'.2
-      exact ⟨.struct ts, by simp [inferTy, hts], by simp [Ty.wf, hwf, hne h'.1], by simp [Ty.notEntry]⟩
-  | .dict [], _ => by refine ⟨_, rfl, ?_, ?_⟩ <;> simp [Ty.wf, Ty.notEntry, Ty.isBasic]
-  | .dict ((k, v) :: rest), h => by
-      have h' : k.isScalarKey = true ∧ v.encodableShape = true ∧ encodableShapePairs rest = true := by
-        simp [PyVal.encodableShape, encodableShapePairs] at h; exact ⟨h.1.1, h.1.2, h.2⟩
-      obtain ⟨kc, hk⟩ := inferLastKey_basic ((k, v) :: rest)
-        (by simp [encodableShapePairs, h'.1, h'.2.1, h'.2.2]) (by simp)
-      obtain ⟨vt, hv, hwf, _⟩ := inferTy_wf_aux v h'.2.1
-      simp only [inferTy, hk]
-      split
-      · exact ⟨.array (.dict (.basic kc) vt), by simp [hv], by simp [Ty.wf, Ty.isBasic, hwf], by simp [Ty.notEntry]⟩
-      · exact ⟨_, rfl, by simp [Ty.wf, Ty.isBasic], by simp [Ty.notEntry]⟩
-  | .obj _ _ _, h => by simp [PyVal.encodableShape] at h
-  | .other _, h => by simp [PyVal.encodableShape] at h
-theorem inferTys_wf_aux : ∀ xs : List PyVal, encodableShapes xs = true →
-    ∃ ts, inferTys xs = some ts ∧ wfAll ts = true ∧ (xs ≠ [] → ts ≠ [])
-  | [], _ => ⟨[], by simp [inferTys], by simp [wfAll], by simp⟩
-  | x :: xs, h => by
-      have h' : x.encodableShape = true ∧ encodableShapes xs = true := by simpa [encodableShapes] using h
-      obtain ⟨t, ht, hwf, _⟩ := inferTy_wf_aux x h'.1
-      obtain ⟨ts, hts, hwfs, _⟩ := inferTys_wf_aux xs h'.2
-      exact ⟨t :: ts, by simp [inferTys, ht, hts], by simp [wfAll, hwf, hwfs], by simp⟩
-theorem inferLastKey_basic : ∀ kvs : List (PyVal × PyVal), encodableShapePairs kvs = true → kvs ≠ [] →
-    ∃ c, inferLastKey kvs = some (.basic c)
-  | [], _, hne => absurd rfl hne
-  | [(k, _)], h, _ => by
-      have hk : k.isScalarKey = true := by simp [encodableShapePairs] at h; exact h.1
-      simpa [inferLastKey] using scalarKey_basic k hk
-  | _ :: p :: rest, h, _ => by
-      have h' : encodableShapePairs (p :: rest) = true := by
-        simp [encodableShapePairs] at h ⊢; exact ⟨h.2.1, h.2.2⟩
-      simpa [inferLastKey] using inferLastKey_basic (p :: rest) h' (by simp)
-end
-
-theorem inferTy_wf (v : PyVal) (h : v.encodableShape = true) : ∃ t, inferTy v = some t ∧ t.wf = true := by
-  obtain ⟨t, ht, hwf, _⟩ := inferTy_wf_aux v h
-  exact ⟨t, ht, hwf⟩
+/-- The key test of the dict rule accepts exactly the renderings of basic types. -/
+theorem isBasicSig_render : ∀ t : Ty, isBasicSig t.render = true → ∃ c, t = .basic c
+  | .basic c, _ => ⟨c, rfl⟩
+  | .variant, h => by simp [Ty.render, isBasicSig, basicCodes] at h
+  | .array e, h => by
+      have := render_ne_nil e
+      cases he : e.render with
+      | nil => exact absurd he this
+      | cons a as => simp [Ty.render, he, isBasicSig] at h
+  | .struct fs, h => by
+      cases hf : renderAll fs ++ [')'] with
+      | nil => simp at hf
+      | cons a as => simp [Ty.render, hf, isBasicSig] at h
+  | .dict k v, h => by
+      cases hf : k.render ++ v.render ++ ['}'] with
+      | nil => simp at hf
+      | cons a as => simp [Ty.render, hf, isBasicSig] at h
 
 /-! ### wherever the rules give a type, the code returns its rendering (no side condition) -/
 
@@ -234,7 +64,7 @@ theorem sigFromPy_of_inferTy : ∀ (v : PyVal) (t : Ty), inferTy v = some t → 
   | .list [], t, h => by simp [inferTy] at h; subst h; simp [sigFromPy, Ty.render]
   | .list (x :: xs), t, h => by
       simp only [inferTy] at h
-      simp only [sigFromPy]
+      simp only [sigFromPy, allSameType_eq]
       split at h
       · rename_i hs
         cases hx : inferTy x with
@@ -244,31 +74,39 @@ theorem sigFromPy_of_inferTy : ∀ (v : PyVal) (t : Ty), inferTy v = some t → 
           simp [hs, sigFromPy_of_inferTy x tx hx, Ty.render]
       · rename_i hs
         simp at h; subst h; simp [hs, Ty.render]
-  | .tuple xs, t, h => by
+  | .tuple [], t, h => by simp [inferTy] at h
+  | .tuple (x :: xs), t, h => by
       simp only [inferTy] at h
-      cases hts : inferTys xs with
+      cases hts : inferTys (x :: xs) with
       | none => simp [hts] at h
       | some ts =>
         simp [hts] at h; subst h
-        simp [sigFromPy, sigConcat_of_inferTys xs ts hts, Ty.render]
+        simp [sigFromPy, sigConcat_of_inferTys (x :: xs) ts hts, Ty.render]
   | .dict [], t, h => by simp [inferTy] at h; subst h; simp [sigFromPy, Ty.render, Basic.code]
   | .dict ((k, v) :: rest), t, h => by
       simp only [inferTy] at h
-      simp only [sigFromPy]
+      simp only [sigFromPy, allValuesSameType_eq]
       cases hk : inferLastKey ((k, v) :: rest) with
       | none => simp [hk] at h
       | some kt =>
-        simp only [hk] at h
         rw [sigLastKey_of_inferLastKey ((k, v) :: rest) kt hk]
-        split at h
-        · rename_i hs
-          cases hv : inferTy v with
-          | none => simp [hv] at h
-          | some vt =>
-            simp [hv] at h; subst h
-            simp [hs, sigFromPy_of_inferTy v vt hv, Ty.render]
-        · rename_i hs
-          simp at h; subst h; simp [hs, Ty.render]
+        cases kt with
+        | basic kc =>
+          simp only [hk] at h
+          simp only [isBasicSig_basic, if_true]
+          split at h
+          · rename_i hs
+            cases hv : inferTy v with
+            | none => simp [hv] at h
+            | some vt =>
+              simp [hv] at h; subst h
+              simp [hs, sigFromPy_of_inferTy v vt hv, Ty.render]
+          · rename_i hs
+            simp at h; subst h; simp [hs, Ty.render]
+        | variant => simp [hk] at h
+        | array _ => simp [hk] at h
+        | struct _ => simp [hk] at h
+        | dict _ _ => simp [hk] at h
   | .obj _ _ _, t, h => by simp [inferTy] at h
   | .other _, t, h => by simp [inferTy] at h
 theorem sigConcat_of_inferTys : ∀ (xs : List PyVal) (ts : List Ty), inferTys xs = some ts →
@@ -294,5 +132,177 @@ theorem sigLastKey_of_inferLastKey : ∀ (kvs : List (PyVal × PyVal)) (t : Ty),
       simp only [inferLastKey] at h
       simpa [sigLastKey] using sigLastKey_of_inferLastKey (p :: rest) t h
 end
+
+/-! ### and where the rules give no type the code raises MarshallingError (values without custom
+`dbusSignature` objects) -/
+
+mutual
+theorem sigFromPy_none : ∀ v : PyVal, v.noCustomSig = true → inferTy v = none →
+    sigFromPy v = .error .marshalling
+  | .none, _, _ => by simp [sigFromPy]
+  | .bool _, _, h => by simp [inferTy] at h
+  | .int cls n, _, h => by cases cls <;> simp [inferTy, IntCls.basic?] at h
+  | .float _, _, h => by simp [inferTy] at h
+  | .str _ _, _, h => by simp [inferTy] at h
+  | .bytearray _, _, h => by simp [inferTy] at h
+  | .list [], _, h => by simp [inferTy] at h
+  | .list (x :: xs), hc, h => by
+      have hx : x.noCustomSig = true := by
+        simp [PyVal.noCustomSig, noCustomSigs] at hc; exact hc.1
+      simp only [inferTy] at h
+      simp only [sigFromPy, allSameType_eq]
+      split at h
+      · rename_i hs
+        cases hi : inferTy x with
+        | none => simp [hs, sigFromPy_none x hx hi]
+        | some t => simp [hi] at h
+      · simp at h
+  | .tuple [], _, _ => by simp [sigFromPy]
+  | .tuple (x :: xs), hc, h => by
+      have hxs : noCustomSigs (x :: xs) = true := by simpa [PyVal.noCustomSig] using hc
+      simp only [inferTy] at h
+      cases hts : inferTys (x :: xs) with
+      | none => simp [sigFromPy, sigConcat_none (x :: xs) hxs hts]
+      | some ts => simp [hts] at h
+  | .dict [], _, h => by simp [inferTy] at h
+  | .dict ((k, v) :: rest), hc, h => by
+      have h' : k.noCustomSig = true ∧ v.noCustomSig = true ∧ noCustomSigPairs rest = true := by
+        simp [PyVal.noCustomSig, noCustomSigPairs] at hc; exact ⟨hc.1.1, hc.1.2, hc.2⟩
+      have hp : noCustomSigPairs ((k, v) :: rest) = true := by simp [noCustomSigPairs, h'.1, h'.2.1, h'.2.2]
+      simp only [inferTy] at h
+      simp only [sigFromPy, allValuesSameType_eq]
+      cases hk : inferLastKey ((k, v) :: rest) with
+      | none => simp [sigLastKey_none ((k, v) :: rest) hp (by simp) hk]
+      | some kt =>
+        rw [sigLastKey_of_inferLastKey ((k, v) :: rest) kt hk]
+        cases hb : isBasicSig kt.render with
+        | false => simp [hb]
+        | true =>
+          obtain ⟨kc, rfl⟩ := isBasicSig_render kt hb
+          simp only [hk] at h
+          simp only [hb, if_true]
+          split at h
+          · rename_i hs
+            cases hv : inferTy v with
+            | none => simp [hs, sigFromPy_none v h'.2.1 hv]
+            | some vt => simp [hv] at h
+          · simp at h
+  | .obj _ (some _) _, hc, _ => by simp [PyVal.noCustomSig] at hc
+  | .obj _ Option.none _, _, _ => by simp [sigFromPy]
+  | .other _, _, _ => by simp [sigFromPy]
+theorem sigConcat_none : ∀ xs : List PyVal, noCustomSigs xs = true → inferTys xs = none →
+    sigConcat xs = .error .marshalling
+  | [], _, h => by simp [inferTys] at h
+  | x :: xs, hc, h => by
+      have h' : x.noCustomSig = true ∧ noCustomSigs xs = true := by simpa [noCustomSigs] using hc
+      simp only [inferTys] at h
+      simp only [sigConcat]
+      cases hx : inferTy x with
+      | none => simp [sigFromPy_none x h'.1 hx]
+      | some t =>
+        rw [sigFromPy_of_inferTy x t hx]
+        cases hxs : inferTys xs with
+        | none => simp [sigConcat_none xs h'.2 hxs]
+        | some ts => simp [hx, hxs] at h
+theorem sigLastKey_none : ∀ kvs : List (PyVal × PyVal), noCustomSigPairs kvs = true → kvs ≠ [] →
+    inferLastKey kvs = none → sigLastKey kvs = .error .marshalling
+  | [], _, hne, _ => absurd rfl hne
+  | [(k, _)], hc, _, h => by
+      have hk : k.noCustomSig = true := by simp [noCustomSigPairs] at hc; exact hc.1
+      simp only [inferLastKey] at h
+      simpa [sigLastKey] using sigFromPy_none k hk h
+  | _ :: p :: rest, hc, _, h => by
+      have h' : noCustomSigPairs (p :: rest) = true := by
+        simp [noCustomSigPairs] at hc ⊢; exact ⟨hc.2.1, hc.2.2⟩
+      simp only [inferLastKey] at h
+      simpa [sigLastKey] using sigLastKey_none (p :: rest) h' (by simp) h
+end
+
+theorem sigFromPy_eq_inferTy (v : PyVal) (h : v.noCustomSig = true) : sigFromPy v = renderRes (inferTy v) := by
+  cases hi : inferTy v with
+  | none => simpa [renderRes] using sigFromPy_none v h hi
+  | some t => simpa [renderRes] using sigFromPy_of_inferTy v t hi
+
+/-! ### the inferred type is always a well-formed DBus type -/
+
+theorem wf_array_of_notEntry (t : Ty) (h : t.notEntry = true) : (Ty.array t).wf = t.wf := by
+  cases t <;> simp_all [Ty.wf, Ty.notEntry]
+
+mutual
+theorem inferTy_wf_aux : ∀ (v : PyVal) (t : Ty), inferTy v = some t → t.wf = true ∧ t.notEntry = true
+  | .none, t, h => by simp [inferTy] at h
+  | .bool _, t, h => by simp [inferTy] at h; subst h; simp [Ty.wf, Ty.notEntry]
+  | .int cls n, t, h => by
+      cases cls <;> simp [inferTy, IntCls.basic?] at h <;> subst h <;> simp [Ty.wf, Ty.notEntry]
+  | .float _, t, h => by simp [inferTy] at h; subst h; simp [Ty.wf, Ty.notEntry]
+  | .str _ _, t, h => by simp [inferTy] at h; subst h; simp [Ty.wf, Ty.notEntry]
+  | .bytearray _, t, h => by simp [inferTy] at h; subst h; simp [Ty.wf, Ty.notEntry]
+  | .list [], t, h => by simp [inferTy] at h; subst h; simp [Ty.wf, Ty.notEntry]
+  | .list (x :: xs), t, h => by
+      simp only [inferTy] at h
+      split at h
+      · cases hx : inferTy x with
+        | none => simp [hx] at h
+        | some tx =>
+          simp [hx] at h; subst h
+          obtain ⟨hwf, hne⟩ := inferTy_wf_aux x tx hx
+          exact ⟨by rw [wf_array_of_notEntry tx hne]; exact hwf, by simp [Ty.notEntry]⟩
+      · simp at h; subst h; simp [Ty.wf, Ty.notEntry]
+  | .tuple [], t, h => by simp [inferTy] at h
+  | .tuple (x :: xs), t, h => by
+      simp only [inferTy] at h
+      cases hts : inferTys (x :: xs) with
+      | none => simp [hts] at h
+      | some ts =>
+        simp [hts] at h; subst h
+        obtain ⟨hwf, hne⟩ := inferTys_wf_aux (x :: xs) ts hts
+        exact ⟨by simp [Ty.wf, hwf, hne (by simp)], by simp [Ty.notEntry]⟩
+  | .dict [], t, h => by simp [inferTy] at h; subst h; simp [Ty.wf, Ty.notEntry, Ty.isBasic]
+  | .dict ((k, v) :: rest), t, h => by
+      simp only [inferTy] at h
+      cases hk : inferLastKey ((k, v) :: rest) with
+      | none => simp [hk] at h
+      | some kt =>
+        cases kt with
+        | basic kc =>
+          simp only [hk] at h
+          split at h
+          · cases hv : inferTy v with
+            | none => simp [hv] at h
+            | some vt =>
+              simp [hv] at h; subst h
+              obtain ⟨hwf, _⟩ := inferTy_wf_aux v vt hv
+              exact ⟨by simp [Ty.wf, Ty.isBasic, hwf], by simp [Ty.notEntry]⟩
+          · simp at h; subst h; simp [Ty.wf, Ty.notEntry, Ty.isBasic]
+        | variant => simp [hk] at h
+        | array _ => simp [hk] at h
+        | struct _ => simp [hk] at h
+        | dict _ _ => simp [hk] at h
+  | .obj _ _ _, t, h => by simp [inferTy] at h
+  | .other _, t, h => by simp [inferTy] at h
+theorem inferTys_wf_aux : ∀ (xs : List PyVal) (ts : List Ty), inferTys xs = some ts →
+    wfAll ts = true ∧ (xs ≠ [] → ts ≠ [])
+  | [], ts, h => by simp [inferTys] at h; subst h; simp [wfAll]
+  | x :: xs, ts, h => by
+      simp only [inferTys] at h
+      cases hx : inferTy x with
+      | none => simp [hx] at h
+      | some t =>
+        cases hxs : inferTys xs with
+        | none => simp [hx, hxs] at h
+        | some ts' =>
+          simp [hx, hxs] at h; subst h
+          obtain ⟨hwf, _⟩ := inferTy_wf_aux x t hx
+          obtain ⟨hwfs, _⟩ := inferTys_wf_aux xs ts' hxs
+          exact ⟨by simp [wfAll, hwf, hwfs], by simp⟩
+end
+
+/-- Whatever type the rules give is a well-formed DBus type: non-empty structs, dict entries only as
+array elements, basic keys. -/
+theorem inferTy_wf (v : PyVal) (t : Ty) (h : inferTy v = some t) : t.wf = true :=
+  (inferTy_wf_aux v t h).1
+
+theorem inferTy_notEntry (v : PyVal) (t : Ty) (h : inferTy v = some t) : t.notEntry = true :=
+  (inferTy_wf_aux v t h).2
 
 end Txdbus
